@@ -86,6 +86,6 @@ theorem uniqueForIndexedString_encode (col : List Bytes) (hn : NoTrailingNul col
   rw [getIndexedStringUnique_encode]
   simp only [discOut, npSortStr_disc col hn, npArgsortStr_disc col hn]
   cases ri <;> cases rv <;> cases rc <;>
-    simp [refNpUnique, gatherOpt, gather_through_perm, gather_inverse, uniqueIndex, uniqueInverse, uniqueCounts]
+    simp [refNpUnique, gatherOpt, remapInverse, gather_through_perm, gather_inverse, uniqueIndex, uniqueInverse, uniqueCounts]
 
 end Exetera.Unique
